@@ -539,9 +539,10 @@ class Blob:
     ``diag``: known to be a diagonal matrix (or a batch/list of diagonal matrices);
     ``pylist``: it is a Python list of unknown length (``[c] * k``), so ``+`` concatenates."""
 
-    __slots__ = ("alts", "sure", "diag", "pylist")
+    __slots__ = ("alts", "sure", "diag", "pylist", "tag")
 
-    def __init__(self, alts, sure=False, diag=False, pylist=False):
+    def __init__(self, alts, sure=False, diag=False, pylist=False, tag=None):
+        self.tag = tag  # "eye": identity of unknown size; "col": vector[..., newaxis]
         self.alts = frozenset(alts)
         if len(self.alts) > MAX_ALTS:
             lin = [a for a in self.alts if isinstance(a, Lin)]
@@ -558,10 +559,10 @@ class Blob:
         self.pylist = bool(pylist)
 
     def __eq__(self, o):
-        return isinstance(o, Blob) and (self.alts, self.sure, self.diag, self.pylist) == (o.alts, o.sure, o.diag, o.pylist)
+        return isinstance(o, Blob) and (self.alts, self.sure, self.diag, self.pylist, self.tag) == (o.alts, o.sure, o.diag, o.pylist, o.tag)
 
     def __hash__(self):
-        return hash((self.alts, self.sure, self.diag, self.pylist))
+        return hash((self.alts, self.sure, self.diag, self.pylist, self.tag))
 
     def __repr__(self):
         return "Blob{" + " | ".join(sorted(map(repr, self.alts))) + "}" + ("" if self.sure else "?") + ("D" if self.diag else "") + ("L" if self.pylist else "")
@@ -866,6 +867,10 @@ def num_bin(opname, a, b):
             return r
     a_sc, b_sc = isinstance(a, Sc), isinstance(b, Sc)
     A, B = to_blob(a), to_blob(b)
+    if opname == "mul" and {A.tag, B.tag} == {"col", "eye"}:
+        # the idiom  vector[..., newaxis] * eye(n)  == diag(vector)   (DESIGN 2.1, shape domain)
+        V = A if A.tag == "col" else B
+        return Blob(V.alts | {ZERO}, V.sure, True)
     alts = {op(x, y) for x in A.alts for y in B.alts}
     sure = A.sure and B.sure and (len(A.alts) == 1 or len(B.alts) == 1)
     if opname == "mul":
@@ -951,7 +956,8 @@ def join(a, b):
             if not depends(a) and not depends(b):
                 return Opaque()
             return TopV("join of unlike values")
-        return Blob(A.alts | B.alts, A.alts == B.alts and A.sure and B.sure, A.diag and B.diag, A.pylist and B.pylist)
+        pl = (A.pylist or isinstance(a, PyList)) and (B.pylist or isinstance(b, PyList))
+        return Blob(A.alts | B.alts, A.alts == B.alts and A.sure and B.sure, A.diag and B.diag, pl)
     if not depends(a) and not depends(b):
         return Opaque()
     return TopV("join of unlike values")
@@ -1237,7 +1243,7 @@ class Interp:
         if root is not None and root[0] == "import" and root[1].split(".")[0] in EXTERNAL_TOPS:
             return self._external(parts)
         if root is not None and root[0] == "from" and root[1][0].split(".")[0] in EXTERNAL_TOPS:
-            return self._external([root[1][1]] + parts[1:])
+            return self._external([root[1][0]] + [root[1][1]] + parts[1:])
         r = self.ix.resolve_expr(m, expr)
         if r is None:
             # unresolvable attribute of a resolvable owner
@@ -1572,12 +1578,13 @@ class Interp:
                 return r
         if isinstance(v, Sc):
             # a parameter interpreted as a scalar, indexed along its batch axis
-            if all(k in ("slice", "new", "ellipsis") for k, _ in spec):
+            if all(k in ("slice", "new", "ellipsis") for k, _ in spec) or not depends(v):
                 return v
-            return Sc(v.alts, v.sure)
+            return self.top("a gate parameter is indexed (it is a vector/matrix, not a scalar angle)")
         b = to_blob(v)
         only_full = all(k in ("new", "ellipsis") or (k == "slice" and s == slice(None)) for k, s in spec)
-        return Blob(b.alts, b.sure and only_full, b.diag and only_full and not any(k == "new" for k, _ in spec), False)
+        col = only_full and not b.diag and len(spec) >= 2 and spec[-1][0] == "new" and sum(1 for k, _ in spec if k == "new") == 1
+        return Blob(b.alts, b.sure and only_full, b.diag and only_full and not any(k == "new" for k, _ in spec), False, "col" if col else None)
 
     def _slice(self, s, env, fr):
         out = []
@@ -1659,7 +1666,9 @@ class Interp:
         if isinstance(v, TopV):
             return None, v
         if isinstance(v, Sc):
-            return None, Sc(v.alts, False)  # iteration over the batch axis
+            if depends(v):
+                return None, self.top("iteration over a parameter-dependent scalar")
+            return None, Sc(v.alts, False)
         if depends(v):
             return None, self.top("iteration over an unmodelled value")
         return None, Opaque()
@@ -2097,7 +2106,7 @@ class Interp2(Interp):
                 return Blob([ZERO, P_ONE], False)
             if n is not None and m == n and 0 < n <= 256:
                 return arr_eye(n)
-            return Blob([ZERO, P_ONE], True, True)
+            return Blob([ZERO, P_ONE], True, True, False, "eye")
         if name == "diag":
             v = as_array(a0)
             if len(args) > 1 or "k" in kwargs:
@@ -2157,10 +2166,9 @@ class Interp2(Interp):
                     return arr_outer(a, b)
                 return products(a, b, diag=False)
             last_first = n == 1 or (
-                isinstance(axes, PyList) and len(axes.items) == 2
-                and [_axes_ints(x) for x in axes.items] in ([[-1], [0]], [[1], [0]])
+                isinstance(axes, PyList) and len(axes.items) == 2 and [_axes_ints(x) for x in axes.items] == [[-1], [0]]
             )
-            if last_first and isinstance(a, Arr) and isinstance(b, Arr) and (a.rank == 2 or _axes_ints(axes.items[0] if isinstance(axes, PyList) else K(Cx(-1))) == [-1]):
+            if last_first and isinstance(a, Arr) and isinstance(b, Arr):
                 r = arr_matmul(a, b)
                 if r is not None:
                     return r
@@ -2544,6 +2552,23 @@ def matrix_params(cls, fi):
     return [p for p in nodefault if p not in wires_like]
 
 
+def nonscalar_params(cls, params):
+    """gate parameters the class itself declares as arrays: ndim_params entry != 0 or a subscripted
+    arg_specs entry (``Complex[-1, -1]``) -> {param: reason}."""
+    out = {}
+    _, nd = cls.lookup("ndim_params", stop_at=BASE_STOP)
+    if isinstance(nd, ast.Tuple) and len(nd.elts) == len(params):
+        for p, e in zip(params, nd.elts):
+            if not (isinstance(e, ast.Constant) and e.value == 0):
+                out[p] = "ndim_params"
+    _, sp = cls.lookup("arg_specs", stop_at=BASE_STOP)
+    if isinstance(sp, ast.Dict):
+        for k, v in zip(sp.keys, sp.values):
+            if isinstance(k, ast.Constant) and k.value in params and isinstance(v, ast.Subscript):
+                out[k.value] = "arg_specs"
+    return out
+
+
 def _collect(v, out):
     """(atom, sure) pairs of every entry of a returned value."""
     if isinstance(v, Sc):
@@ -2599,8 +2624,12 @@ def _analyse(ix, cls):
     it = Interp2(ix)
     a = fi.node.args
     env = {}
+    nonscalar = nonscalar_params(cls, info.params)
     for x in a.posonlyargs + a.args + a.kwonlyargs:
-        if x.arg in info.params:
+        if x.arg in nonscalar:
+            env[x.arg] = TopV(f"`{x.arg}` is declared as a non-scalar parameter ({nonscalar[x.arg]})")
+            it.tops.append(env[x.arg].why)
+        elif x.arg in info.params:
             env[x.arg] = Sc([Lin({x.arg: ONE}, Cx(0))])
         else:
             ann = x.annotation
